@@ -158,6 +158,7 @@ func vc02Finalize(maxSpecies int) {
 	vAssert(err == nil, "C02: finalizing the turnover succeeds when the best species reproduced")
 	postEpoch(pop, before, len(babies), "C02")
 	vAssert(len(pop.Innovations()) == 0, "C02/C03: the record of innovations is forgotten when the generation ends")
+	vAssert(pop.LastSpecies >= before.last, "C02: the species id counter never goes back (ids are never reused)")
 	// genome ids are 0..n-1
 	for i, o := range pop.Organisms {
 		vAssert(o.Genotype.Id == i, "C02: genome ids are renumbered 0..n-1")
@@ -211,7 +212,32 @@ func vc02Epoch(shape int, fitnessPattern int) {
 	vReach("end")
 }
 
-func VC02_Finalize_Quick()    { vc02Finalize(2) }
-func VC02_Finalize_Thorough() { vc02Finalize(3) }
-func VC02_Epoch_Quick()       { vc02Epoch(vChoice("shape", 2), vChoice("fitness pattern", 3)) }
-func VC02_Epoch_Thorough()    { vc02Epoch(2+vChoice("shape", 3), vChoice("fitness pattern", 3)) }
+// the quota redistribution phases (stolen babies, delta coding) are not allowed to touch species ages or ids:
+// ages change only in the final ageing step, by exactly one
+func vc02Redistribute(maxSpecies, popSize int) {
+	ns := 1 + vChoice("species", maxSpecies)
+	ss, opts := sortedSpeciesWithQuotas(ns, popSize)
+	ages, ids := make([]int, ns), make([]int, ns)
+	for i, sp := range ss {
+		ages[i], ids[i] = sp.Age, sp.Id
+	}
+	pop := newPopulation()
+	pop.LastSpecies = ns
+	if vChoice("deltaCoding", 2) == 1 {
+		pop.deltaCoding(ss, opts)
+	} else {
+		pop.giveBabiesToTheBest(ss, opts)
+	}
+	for i, sp := range ss {
+		vAssert(sp.Age == ages[i], "C02: redistributing offspring quotas does not change a species' age")
+		vAssert(sp.Id == ids[i], "C02: redistributing offspring quotas does not change a species' id")
+	}
+	vAssert(pop.LastSpecies == ns, "C02: redistributing offspring quotas does not touch the species id counter")
+	vReach("end")
+}
+
+func VC02_Redistribute_Quick() { vc02Redistribute(3, 11) }
+func VC02_Finalize_Quick()     { vc02Finalize(2) }
+func VC02_Finalize_Thorough()  { vc02Finalize(3) }
+func VC02_Epoch_Quick()        { vc02Epoch(vChoice("shape", 2), vChoice("fitness pattern", 3)) }
+func VC02_Epoch_Thorough()     { vc02Epoch(2+vChoice("shape", 3), vChoice("fitness pattern", 3)) }
